@@ -3,6 +3,7 @@ import Ivg.Lemmas.RenderHistQ
 import Ivg.Gen.Tie.GradientFields
 import Ivg.Gen.Tie.RendererFields
 import Ivg.Gen.Tie.MiscFields
+import Ivg.Gen.Tie.LoggerForwards
 import Ivg.Obligations
 /-!
 # C05 — drawing operations reach the rasteriser as the right segments, affinely mapped
@@ -349,4 +350,5 @@ end Ivg.Props.C05
   Ivg.Props.C05.geometry_after_rast,
   Ivg.Gen.Tie.renderer_fields_tie,
   Ivg.Gen.Tie.gradient_fields_tie,
-  Ivg.Gen.Tie.viewBox_fields_tie]
+  Ivg.Gen.Tie.viewBox_fields_tie,
+  Ivg.Gen.Tie.logger_forwards_tie, Ivg.Gen.Tie.rasterizer_logger_forwards_tie]
